@@ -165,12 +165,24 @@ theorem Inv.setPc {c : Cfg} {s : State} (h : Inv c s) (t : Nat) (p : Pc) (hp : T
     intro x hx
     simp only [transit_upd htr]; exact h.noleak x hx
 
-theorem Inv.a3 {c : Cfg} {s : State} (h : Inv c s) {t cv cg : Nat} (hpc : s.pc t = .a3 cv cg)
-    (r : Nat → Option (Nat × Nat)) :
+theorem fresh_upd {s : State} {t : Nat} {p : Pc} (hfr : p.fresh = (s.pc t).fresh) :
+    ∀ v, (upd s.pc t p v).fresh = (s.pc v).fresh := by
+  intro v; by_cases hv : v = t
+  · subst hv; simp [hfr]
+  · simp [upd_other _ _ hv]
+
+/-- a3 / an2: the allocating thread stores the ACTIVE flag and returns -/
+theorem Inv.storeFlag {c : Cfg} {s : State} (h : Inv c s) {t cv : Nat}
+    (hpc : (∃ cg, s.pc t = .a3 cv cg) ∨ s.pc t = .an2 cv) (r : Nat → Option (Nat × Nat)) :
     Inv c { s with next := upd s.next cv c.active, result := r, pc := upd s.pc t .idle } := by
-  have hown : s.owner cv = some t := by have := h.thr t; rw [hpc] at this; exact this
+  have hown : s.owner cv = some t := by
+    have := h.thr t
+    rcases hpc with ⟨cg, hpc⟩ | hpc <;> (rw [hpc] at this; exact this)
+  have hfr : (s.pc t).fresh = some cv := by
+    rcases hpc with ⟨cg, hpc⟩ | hpc <;> simp [hpc, Pc.fresh]
   have hnfl : cv ∉ s.fl := fun hm => by have := (h.flmem cv hm).2; simp [hown] at this
-  have htr : (Pc.idle).transit = (s.pc t).transit := by simp [hpc, Pc.transit]
+  have htr : (Pc.idle).transit = (s.pc t).transit := by
+    rcases hpc with ⟨cg, hpc⟩ | hpc <;> simp [hpc, Pc.transit]
   refine { chain := chainOK_upd hnfl h.chain, nodup := h.nodup, flmem := h.flmem, high := h.high,
            nd := h.nd, cap := h.cap, thr := ?_, uniq := ?_, flag := ?_, noleak := ?_ }
   · intro u
@@ -188,8 +200,79 @@ theorem Inv.a3 {c : Cfg} {s : State} (h : Inv c s) {t cv cg : Nat} (hpc : s.pc t
   · intro x u hx
     have := h.flag x u hx
     by_cases hv : u = t
-    · subst hv; simp [hpc, Pc.fresh] at this ⊢; grind [upd]
+    · subst hv; simp [hfr] at this ⊢; grind [upd]
     · simp [upd_other _ _ hv]; grind [upd]
   · intro x hx
     simp only [transit_upd htr]; exact h.noleak x hx
+
+/-- an: mint a new id -/
+theorem Inv.mint {c : Cfg} {s : State} (h : Inv c s) {t : Nat} (hpc : s.pc t = .an)
+    (hcap : s.nv + 1 ≤ c.active) :
+    Inv c { s with nv := s.nv + 1, owner := upd s.owner s.nv (some t),
+                   dup := s.dup || (s.owner s.nv).isSome, pc := upd s.pc t (.an2 s.nv) } := by
+  have htr : (Pc.an2 s.nv).transit = (s.pc t).transit := by simp [hpc, Pc.transit]
+  have hhigh := h.high
+  have hfl := h.flmem
+  refine { chain := h.chain, nodup := h.nodup, flmem := ?flmem, high := ?high,
+           nd := ?nd, cap := hcap, thr := ?thr, uniq := ?uniq, flag := ?flag, noleak := ?noleak }
+  case flmem => intro x hx; have := hfl x hx; simp only; grind [upd]
+  case high => intro x hx; simp only at hx ⊢; grind [upd]
+  case nd => simp [h.nd, hhigh s.nv (Nat.le_refl _)]
+  case thr =>
+    intro u
+    by_cases hu : u = t
+    · subst hu; simp [TInv]
+    · simp only [upd_other _ _ hu]
+      have hu' := h.thr u
+      cases hp : s.pc u <;> rw [hp] at hu' <;> simp only [TInv] at hu' ⊢ <;> try exact hu'
+      all_goals grind [upd]
+  case uniq =>
+    intro u w id
+    simp only [transit_upd htr]; exact h.uniq u w id
+  case flag =>
+    intro x u hx
+    simp only at hx ⊢
+    by_cases hxn : x = s.nv
+    · subst hxn; simp at hx; subst hx; simp [Pc.fresh]
+    · rw [upd_other _ _ hxn] at hx
+      have := h.flag x u hx
+      by_cases hv : u = t
+      · subst hv; simp [hpc, Pc.fresh] at this; exact Or.inr this
+      · simpa [upd_other _ _ hv] using this
+  case noleak =>
+    intro x hx
+    simp only [transit_upd htr]
+    simp only at hx
+    by_cases hxn : x = s.nv
+    · subst hxn; right; left; simp
+    · have := h.noleak x (by omega)
+      grind [upd]
+
+/-- d1: store the link of the id being pushed -/
+theorem Inv.link {c : Cfg} {s : State} (h : Inv c s) {t id cv cg : Nat} (hpc : s.pc t = .d1 id cv cg) :
+    Inv c { s with next := upd s.next id cv, pc := upd s.pc t (.d2 id cv cg) } := by
+  have ht : s.owner id = none ∧ id < s.nv ∧ id ∉ s.fl := by have := h.thr t; rw [hpc] at this; exact this
+  have htr : (Pc.d2 id cv cg).transit = (s.pc t).transit := by simp [hpc, Pc.transit]
+  have hfr : (Pc.d2 id cv cg).fresh = (s.pc t).fresh := by simp [hpc, Pc.fresh]
+  refine { chain := chainOK_upd ht.2.2 h.chain, nodup := h.nodup, flmem := h.flmem, high := h.high,
+           nd := h.nd, cap := h.cap, thr := ?_, uniq := ?_, flag := ?_, noleak := ?_ }
+  · intro u
+    by_cases hu : u = t
+    · subst hu; simp [TInv, ht]
+    · simp only [upd_other _ _ hu]
+      have hhead := h.head_mem
+      have hu' := h.thr u
+      have huniq := h.uniq u t
+      cases hp : s.pc u <;> rw [hp] at hu' <;> simp only [TInv] at hu' ⊢ <;> try exact hu'
+      · grind [upd]
+      · rw [hp, hpc] at huniq; simp [Pc.transit] at huniq; grind [upd]
+  · intro u w id
+    simp only [transit_upd htr]; exact h.uniq u w id
+  · intro x u hx
+    simp only [fresh_upd hfr]
+    have := h.flag x u hx
+    grind [upd]
+  · intro x hx
+    simp only [transit_upd htr]; exact h.noleak x hx
+
 end Babylon.IdAlloc
